@@ -36,12 +36,13 @@ ATTR = {
     ('tcfg', 'ref'): ('t_ref', 'range'), ('tcfg', 'region_2'): ('t_r2', 'range'),
     ('tcfg', 'region_1_length'): ('t_e1', 'int'), ('tcfg', 'region_3_length'): ('t_e3', 'int'),
     ('variant', 'pos'): ('v_pos', 'int'), ('variant', 'ref'): ('v_ref_s', 'str'), ('variant', 'alt'): ('v_alt_s', 'str'),
+    ('vstat', 'pos'): ('vpos', 'int'), ('vstat', 'ref_len'): ('vrl', 'int'), ('vstat', 'alt_len'): ('val', 'int'),
 }
 # python annotation -> model type tag
 ANNOT = {'int': 'int', 'bool': 'bool', 'Strand': 'strand', 'Exon': 'exon', 'UIntRange': 'range', 'IntPatternBuilder': 'pt', 'CdsSeq': 'cds',
-         'TargetonConfig': 'tcfg', 'str': 'str', 'str | None': 'ostr', 'VariantType': 'vtype', 'Variant': 'variant'}
+         'TargetonConfig': 'tcfg', 'str': 'str', 'str | None': 'ostr', 'VariantType': 'vtype', 'Variant': 'variant', 'VarStats': 'vstat'}
 COQ_TYPE = {'int': 'Z', 'bool': 'bool', 'strand': 'strand', 'exon': 'exon', 'range': 'range', 'pt': 'pt', 'cds': 'cds_seq', 'tcfg': 'tcfg', 'unit': 'unit',
-            'str': 'string', 'ostr': '(option string)', 'vtype': 'vtype', 'strenum': 'string', 'variant': 'variant'}
+            'str': 'string', 'ostr': '(option string)', 'vtype': 'vtype', 'strenum': 'string', 'variant': 'variant', 'vstat': 'vstat'}
 # members of the IntEnum VariantType -> constructors of the model's vtype
 VTYPE_MEMBERS = {'INSERTION': 'VIns', 'DELETION': 'VDel', 'SUBSTITUTION': 'VSub', 'UNKNOWN': 'VUnknown'}
 
@@ -50,7 +51,7 @@ def coq_string(x: str) -> str:
     if any(ord(c) < 32 or ord(c) > 126 for c in x):
         raise TransError('non-printable character in a string literal')
     return '"' + x.replace('"', '""') + '"'
-ERR = {'ValueError': 'ValueError', 'AssertionError': 'AssertionError'}
+ERR = {'ValueError': 'ValueError', 'AssertionError': 'AssertionError', 'NotImplementedError': 'NotImplementedErr'}
 
 
 class Fn:
@@ -185,6 +186,11 @@ class Translator:
                 else:
                     a, ta = self.expr(left, env, binds)
                     b, tb = self.expr(right, env, binds)
+                    if ta == 'vtype' and tb == 'vtype' and isinstance(op, (ast.Eq, ast.NotEq)):
+                        t = f'(vtype_eqb {a} {b})'
+                        terms.append(t if isinstance(op, ast.Eq) else f'(negb {t})')
+                        left = right
+                        continue
                     if ta != 'int' or tb != 'int':
                         raise TransError('comparison of non-integers')
                     sym = {ast.Lt: ('<?', False), ast.LtE: ('<=?', False), ast.Gt: ('<?', True), ast.GtE: ('<=?', True),
@@ -350,6 +356,8 @@ class Translator:
     def raises(self, st):
         if isinstance(st, ast.Raise) and isinstance(st.exc, ast.Call) and isinstance(st.exc.func, ast.Name) and st.exc.func.id in ERR:
             return ERR[st.exc.func.id]
+        if isinstance(st, ast.Raise) and isinstance(st.exc, ast.Name) and st.exc.id in ERR:      # raise SomeError (the class itself)
+            return ERR[st.exc.id]
         return None
 
     def block(self, stmts, env):
